@@ -74,6 +74,16 @@ func gen(seed, idx int64) set {
 			"module zzrevdep {\n  namespace \"urn:zzrevdep\";\n  prefix zrd;\n  revision 2021-06-01;\n  typedef t { type int32; }\n  container top { leaf val { type string; } }\n}\n",
 			"module zzrevuser {\n  namespace \"urn:zzrevuser\";\n  prefix zru;\n  import zzrevdep { prefix f; revision-date 2020-01-01; }\n  augment \"/f:top\" { leaf extra { type f:t; default 1; } container more { leaf deep { type string; } } }\n  leaf own { type f:t; }\n}\n")
 	}
+	// Every set has a small module with a leaf-list whose defaults repeat a value (a b b c and
+	// the like; goyang keeps them as written): the default accessors return them as they stand,
+	// to every reader. And one set in seven imports, by revision-date, a module that is nowhere
+	// to be found, under a name of its own: the error names that module and no other set's.
+	s.Names = append(s.Names, "zzdefs.yang")
+	s.Texts = append(s.Texts, "module zzdefs {\n  namespace \"urn:zzdefs\";\n  prefix zd;\n  leaf-list ll { type string; default a; default a; default b; }\n  container c { leaf-list mm { type string; default x; default y; default y; default y; default z; default z; } }\n}\n")
+	if idx%7 == 5 {
+		s.Names = append(s.Names, fmt.Sprintf("zzmiss%d.yang", idx))
+		s.Texts = append(s.Texts, fmt.Sprintf("module zzmiss%d {\n  namespace \"urn:zzmiss%d\";\n  prefix zx;\n  import absent%d { prefix ab; revision-date 2020-01-01; }\n  leaf l { type string; }\n}\n", idx, idx, idx))
+	}
 	// One set in five has a text that the syntax tree builder refuses: a mandatory substatement
 	// is missing (namespace, prefix, belongs-to, the type of a leaf), a statement is unknown, or
 	// a single-valued one stands twice. The error paths of the builder run concurrently with
